@@ -11,6 +11,7 @@ import numpy as np
 import json
 import os
 import gzip
+import tempfile
 import hashlib
 from panqec.bsparse import is_sparse, to_array
 from typing import Callable
@@ -368,12 +369,25 @@ def save_json(data, file):
     if isinstance(data, np.ndarray):
         data = data.tolist()
 
-    if os.path.splitext(file)[-1] == '.json':
-        with open(file, 'w') as f:
-            json.dump(data, f, cls=NumpyEncoder)
-    else:
-        with gzip.open(file, 'wb') as gz:
-            gz.write(json.dumps(data, cls=NumpyEncoder).encode('utf-8'))
+    # Write to a uniquely named sibling file and rename it into place, so that
+    # the previous contents survive until the new ones are complete
+    directory = os.path.dirname(file) or '.'
+    fd, tmp_file = tempfile.mkstemp(
+        prefix=os.path.basename(file) + '.', suffix='.tmp', dir=directory
+    )
+    os.close(fd)
+    try:
+        if os.path.splitext(file)[-1] == '.json':
+            with open(tmp_file, 'w') as f:
+                json.dump(data, f, cls=NumpyEncoder)
+        else:
+            with gzip.open(tmp_file, 'wb') as gz:
+                gz.write(json.dumps(data, cls=NumpyEncoder).encode('utf-8'))
+        os.replace(tmp_file, file)
+    except BaseException:
+        if os.path.exists(tmp_file):
+            os.remove(tmp_file)
+        raise
 
 
 def get_label(name: str, parameters: Dict[str, Any]) -> str:
